@@ -747,39 +747,43 @@ fn same_str(a: &str, b: &str) -> bool {
 macro_rules! parse_int_dispatch {
     ($ty:expr, $p:expr, $r:expr) => {{
         macro_rules! one {
-            ($meth:ident, $free:ident, $wrap:ident, $wide:ty) => {{
+            ($meth:ident, $free:ident, $wrap:ident, $wide:ty, $nat:ty) => {{
                 let out = match $p.$meth() {
                     Ok((v, np)) => Out::Value(Val::$wrap(v as $wide), np),
                     Err(e) => Out::Err(e),
                 };
                 let exp = match int_prefix($r, IntTy::signed($ty)) {
                     None => Exp::Err { kind: ErrorKind::ParseInteger },
-                    Some(pre) => match konst::primitive::$free(pre) {
-                        Ok(v) => Exp::Ok {
+                    // konst's whole-string `primitive::parse_*` is itself implemented through the
+                    // Parser method, so it cannot serve as an independent reference: on the
+                    // language `-?[0-9]+` std's `str::parse` is the reference (they must also agree).
+                    Some(pre) => match (konst::primitive::$free(pre), pre.parse::<$nat>()) {
+                        (Ok(kv), Ok(sv)) if kv != sv => Exp::Err { kind: ErrorKind::Other },
+                        (_, Ok(v)) => Exp::Ok {
                             rem: &$r[pre.len()..],
                             piece: None,
                             val: Some(Val::$wrap(v as $wide)),
                             flag: false,
                         },
-                        Err(_) => Exp::Err { kind: ErrorKind::ParseInteger },
+                        (_, Err(_)) => Exp::Err { kind: ErrorKind::ParseInteger },
                     },
                 };
                 (out, exp)
             }};
         }
         match $ty {
-            IntTy::U8 => one!(parse_u8, parse_u8, U, u128),
-            IntTy::U16 => one!(parse_u16, parse_u16, U, u128),
-            IntTy::U32 => one!(parse_u32, parse_u32, U, u128),
-            IntTy::U64 => one!(parse_u64, parse_u64, U, u128),
-            IntTy::U128 => one!(parse_u128, parse_u128, U, u128),
-            IntTy::Usize => one!(parse_usize, parse_usize, U, u128),
-            IntTy::I8 => one!(parse_i8, parse_i8, I, i128),
-            IntTy::I16 => one!(parse_i16, parse_i16, I, i128),
-            IntTy::I32 => one!(parse_i32, parse_i32, I, i128),
-            IntTy::I64 => one!(parse_i64, parse_i64, I, i128),
-            IntTy::I128 => one!(parse_i128, parse_i128, I, i128),
-            IntTy::Isize => one!(parse_isize, parse_isize, I, i128),
+            IntTy::U8 => one!(parse_u8, parse_u8, U, u128, u8),
+            IntTy::U16 => one!(parse_u16, parse_u16, U, u128, u16),
+            IntTy::U32 => one!(parse_u32, parse_u32, U, u128, u32),
+            IntTy::U64 => one!(parse_u64, parse_u64, U, u128, u64),
+            IntTy::U128 => one!(parse_u128, parse_u128, U, u128, u128),
+            IntTy::Usize => one!(parse_usize, parse_usize, U, u128, usize),
+            IntTy::I8 => one!(parse_i8, parse_i8, I, i128, i8),
+            IntTy::I16 => one!(parse_i16, parse_i16, I, i128, i16),
+            IntTy::I32 => one!(parse_i32, parse_i32, I, i128, i32),
+            IntTy::I64 => one!(parse_i64, parse_i64, I, i128, i64),
+            IntTy::I128 => one!(parse_i128, parse_i128, I, i128, i128),
+            IntTy::Isize => one!(parse_isize, parse_isize, I, i128, isize),
         }
     }};
 }
@@ -1297,12 +1301,12 @@ fn exec(case: &ParserCase, ctx: &mut Ctx) -> Res {
                     guard(|| {
                         let out = match pre.parse_bool() { Ok((v, np)) => Out::Value(Val::B(v), np), Err(e) => Out::Err(e) };
                         let exp = if ks::starts_with(r, "true") {
-                            match konst::primitive::parse_bool(&r[..4]) {
+                            match r[..4].parse::<bool>() {
                                 Ok(v) => Exp::Ok { rem: &r[4..], piece: None, val: Some(Val::B(v)), flag },
                                 Err(_) => Exp::Err { kind: ErrorKind::ParseBool },
                             }
                         } else if ks::starts_with(r, "false") {
-                            match konst::primitive::parse_bool(&r[..5]) {
+                            match r[..5].parse::<bool>() {
                                 Ok(v) => Exp::Ok { rem: &r[5..], piece: None, val: Some(Val::B(v)), flag },
                                 Err(_) => Exp::Err { kind: ErrorKind::ParseBool },
                             }
